@@ -286,6 +286,7 @@ def finish(pack, results, wall, tier, seed, write_evidence=True):
         "backends": dict(solver.STATS.by_backend),
         "solver_time_s": round(solver.STATS.time, 3),
         "solver_queries": solver.STATS.queries,
+        "cvc5_recheck": ("every VC proved by z3 was re-discharged by cvc5 (agreement required; cvc5 timeouts are counted as unknown, a refutation is a checker error)" if solver.CROSS else "not in this tier (cvc5 only for z3 unknowns)"),
         "obligation_status": by_status,
         "paths_explored": sum(r.paths for r in real),
         "loop_modes": pack.loop_modes,
